@@ -102,6 +102,7 @@ class Model:
         self.g = inp["g"]
         self.ideal = inp["ideal"]
         self.multi = inp["multi"]
+        self.reseed = inp.get("reseed", False)
         self.impl = {}          # impl outcome key -> witness roots
         self.obs = None
 
@@ -127,10 +128,14 @@ def judge(chk, pid, md, findings_d11):
     replay = {"model": md.m, "model_id": md.id, "ideal": {"reasons": ideal["reasons"]}}
 
     def kf_or_violation(o, what):
-        """clause 2 of DESIGN 5.3: Impl predicts exactly this outcome for this model AND the D11 class predicate holds"""
-        if md.multi and real_key(o) in md.impl and findings_d11:
-            chk.known_finding("D11")
-            return
+        """clause 2 of DESIGN 5.3: Impl predicts exactly this outcome for this model AND the class predicate of a listed finding holds"""
+        if real_key(o) in md.impl and findings_d11:
+            if md.multi:
+                chk.known_finding("D11")
+                return
+            if md.reseed:
+                chk.known_finding("D16")
+                return
         chk.violation(what, dict(replay, roots=o["roots"], forced=o["forced"], observed={k: o.get(k) for k in ("result", "err", "nw", "ew", "nwc", "ewc")},
                                  ideal_full=ideal))
 
@@ -167,15 +172,15 @@ def judge(chk, pid, md, findings_d11):
         if len(keys) > 1:
             a, b = outcomes[0], next((o for o in outcomes + (obs.get("typeperm") or []) + (obs.get("conc") or []) if vkey(o) != vkey(outcomes[0])))
             what = "two builds of one model differ: roots %s -> %s ; roots %s -> %s" % (a["roots"], a["result"], b["roots"], b["result"])
-            if md.multi and all(real_key(o) in md.impl for o in outcomes) and findings_d11:
-                chk.known_finding("D11")
+            if (md.multi or md.reseed) and all(real_key(o) in md.impl for o in outcomes) and findings_d11:
+                chk.known_finding("D11" if md.multi else "D16")
             else:
                 chk.violation(what, dict(replay, a={k: a[k] for k in ("result", "roots", "nw", "nwc")}, b={k: b[k] for k in ("result", "roots", "nw", "nwc")}))
         for op in obs.get("opperm") or []:
             if (op["result"] == "ok") != (op["base"] == "ok") or op["rel_rows"] != op["base_rows"]:
                 what = "reordering commutative operands (%s) changes relation weights/verdict: %s vs %s" % (op["desc"], op["base"], op["result"])
-                if md.multi and findings_d11:
-                    chk.known_finding("D11")
+                if (md.multi or md.reseed) and findings_d11:
+                    chk.known_finding("D11" if md.multi else "D16")
                 else:
                     chk.violation(what, dict(replay, opperm=op))
         return
@@ -320,8 +325,8 @@ def run(pid, tier):
         d11 = "D11" in active or any(f["id"] == "D11" and f["status"] == "known" and pid in f["properties"] for f in load_findings())
 
         # ---- MC + RP over the bounded universe
-        universes = [(2, "{1,2,3,4,5,6,7,8,9,10,11,12,13,14,15,21,22}")] if tier == "quick" else \
-                    [(2, "{1,2,3,4,5,6,7,8,9,10,11,12,13,14,15,16,17,18,19,20,21,22,23}"), (3, "{1,2,4,6,8,9,11,12,13,14,16,17,22}")]
+        universes = [(2, "{1,2,3,4,5,6,7,8,9,10,11,12,13,14,15,21,22,24}")] if tier == "quick" else \
+                    [(2, "{1,2,3,4,5,6,7,8,9,10,11,12,13,14,15,16,17,18,19,20,21,22,23,24}"), (3, "{1,2,4,6,8,9,11,12,13,14,16,17,22}")]
         states = trans = 0
         allmodels = []
         for nfree, menu in universes:
